@@ -6,13 +6,14 @@
 //@rewrite-text !u.as_slice().eq(c3) ==> shim_ne_slices(u.as_slice(), c3)
 //@rewrite-text ((klen as f64) / 32.0).ceil() as u32 ==> shim_ceil_div32(klen)
 //@assume shim_all_zero / shim_ne_slices / shim_ceil_div32 / shim_to_be_u32: all-zero test, slice inequality, ceil(klen/32) via f64, big-endian u32 (external_body shims whose body is the replaced std expression)
-//@assume G1/G2 point arithmetic, Fp12 arithmetic and the pairing are seen ONLY through the hand-written contracts of the `assumed` sections (bodies in gm-sm9/src/points.rs and fields/fp12.rs are not verified by Verus; their formulas are covered by Lean obligations; bilinearity/C12 is not claimed)
+//@assume G2 point arithmetic (TwistPoint::g_mul, twist_point_add_full), Fp12 arithmetic (pow, fp_mul, to_bytes_be) and the pairing are seen ONLY through the hand-written contracts of the `assumed` sections (bodies in gm-sm9/src/points.rs and fields/fp12.rs are not verified by Verus against them; their formulas are covered by Lean obligations; bilinearity/C12 is not claimed). G1 point arithmetic is proved in unit sm9_g1 and imported through its contracts
 //@assume rejection loops (sign, encrypt, exch_step_1b) terminate with probability 1 (exec_allows_no_decreases_clause)
 //@include-spec sm2_math
 //@include-spec sm9_math
 //@include-spec sm3
 //@include-spec sm2_util
 //@include-spec sm9_rand
+//@include-spec sm9_g1
 //@section spec
 use core::fmt::Debug;
 use vstd::arithmetic::div_mod::*;
@@ -27,18 +28,12 @@ impl Eq for Fp12 {}
 #[verifier::external]
 impl core::fmt::Debug for Sm9Error { fn fmt(&self, f: &mut core::fmt::Formatter<'_>) -> core::fmt::Result { Ok(()) } }
 // representation predicates / abstractions (G1 concrete, G2 / GT abstract)
-spec fn wf1(p: Point) -> bool { canon9(p.x@) && canon9(p.y@) && canon9(p.z@) }
-spec fn abs1(p: Point) -> Pt1 { abs_pt1(p.x@, p.y@, p.z@) }
-spec fn valid1(p: Point) -> bool { wf1(p) && on_curve1(abs1(p)) }
 pub uninterp spec fn valid2(q: TwistPoint) -> bool;
 pub uninterp spec fn abs2(q: TwistPoint) -> Pt2;
 // ok12 additionally fixes the number of coefficients of the abstract view (needed for |gt_bytes| = 384)
 pub uninterp spec fn ok12_repr(f: Fp12) -> bool;
 pub uninterp spec fn abs12(f: Fp12) -> Gt;
 spec fn ok12(f: Fp12) -> bool { ok12_repr(f) && abs12(f).c.len() == 12 }
-pub open spec fn pt1_x(q: Pt1) -> int { match q { Pt1::Inf => 0, Pt1::Aff { x, y } => x } }
-pub open spec fn pt1_y(q: Pt1) -> int { match q { Pt1::Inf => 0, Pt1::Aff { x, y } => y } }
-pub open spec fn xy1_bytes(q: Pt1) -> Seq<u8> { be_bytes(pt1_x(q), 32) + be_bytes(pt1_y(q), 32) }
 // ---------------- GM/T 0044: H1 / H2 (hash to [1, N-1]), MAC, KDF ----------------
 pub open spec fn s_ha(prefix: u8, z: Seq<u8>) -> Seq<u8> {
     (sm3_spec(seq![prefix] + z + seq![0u8, 0u8, 0u8, 1u8]) + sm3_spec(seq![prefix] + z + seq![0u8, 0u8, 0u8, 2u8])).subrange(0, 40)
@@ -210,33 +205,13 @@ fn xor(k: &[u8], data: &[u8], len: usize) -> (ret: Vec<u8>)
     proof { assert(ret@ =~= s_xor(k@.subrange(0, len as int), data@.subrange(0, len as int))); }
     ret
 }
+//@stub sm9_g1 Point::from_bytes
+//@stub sm9_g1 Point::to_bytes_be
+//@stub sm9_g1 Point::is_on_curve
+//@stub sm9_g1 Point::point_add
+//@stub sm9_g1 Point::point_mul
+//@stub sm9_g1 Point::g_mul
 //@section assumed gm-sm9/src/points.rs
-impl Point {
-    fn from_bytes(b: &[u8]) -> (r: Self)
-        requires b@.len() >= 65, be_val(b@.subrange(1, 33)) < P9(), be_val(b@.subrange(33, 65)) < P9()
-        ensures wf1(r), fe9(r.z@) == 1, fe9(r.x@) == be_val(b@.subrange(1, 33)), fe9(r.y@) == be_val(b@.subrange(33, 65))
-    { unimplemented!() }
-    fn to_bytes_be(&self) -> (r: Vec<u8>)
-        requires wf1(*self) /* `val4(self.z@) != 0` dropped; for z == 0 the code yields 04 || 0^64 == xy1_bytes(Inf) */
-        ensures r@ == seq![4u8] + xy1_bytes(abs1(*self))
-    { unimplemented!() }
-    fn is_on_curve(&self) -> (r: bool)
-        requires wf1(*self), val4(self.z@) != 0
-        ensures r == on_curve1(abs1(*self))
-    { unimplemented!() }
-    fn point_add(&self, rhs: &Self) -> (r: Self)
-        requires valid1(*self), valid1(*rhs)
-        ensures valid1(r), abs1(r) == g1_add(abs1(*self), abs1(*rhs))
-    { unimplemented!() }
-    fn point_mul(&self, k: &[u64]) -> (r: Self)
-        requires valid1(*self), k@.len() == 4
-        ensures valid1(r), abs1(r) == g1_smul(val4(k@), abs1(*self))
-    { unimplemented!() }
-    fn g_mul(k: &[u64]) -> (r: Point)
-        requires k@.len() == 4
-        ensures valid1(r), abs1(r) == g1_smul(val4(k@), G1P())
-    { unimplemented!() }
-}
 impl TwistPoint {
     fn g_mul(k: &U256) -> (r: TwistPoint)
         ensures valid2(r), abs2(r) == g2_smul(val4(k@), G2P())
